@@ -186,6 +186,15 @@ elements_gluevars([E|Es], N0, N) -->
         element_gluevar(E, N0, N1),
         elements_gluevars(Es, N1, N).
 
+elements_width([], W, W).
+elements_width([E|Es], W0, W) :-
+        (   E = chars(Cs) ->
+            length(Cs, L),
+            W1 is W0 + L
+        ;   W1 = W0
+        ),
+        elements_width(Es, W1, W).
+
 element_gluevar(chars(Cs), N0, N) -->
         { must_be(chars, Cs),
           length(Cs, L),
@@ -321,7 +330,9 @@ cells([~,'|'|Fs], Args, Tab0, Es, VNs) --> !,
             { length(Cs, Width),
               Tab is Tab0 + Width },
             cell(Tab0, Tab, Es)
-        ;   { G = (phrase(elements_gluevars(Es, 0, Width), _),
+        ;   % G runs after the goals of Es: only the lengths are needed
+            % (running the goals again breaks write_term_to_chars/3)
+            { G = (elements_width(Es, 0, Width),
                    Tab is Tab0 + Width) },
             cell(Tab0, Tab, [goal(G)|Es])
         ),
